@@ -524,7 +524,7 @@ def run_for_property(prop, tier, seed, plan, env):
         # cross-cutting properties replay a deterministic sample per module and build in the quick tier
         cap = None
         if tier == "quick" and len(modules) > 2:
-            cap = 5000
+            cap = 3000
         elif tier == "thorough":
             cap = 20000 if len(modules) > 2 else 100000
         jobs = []
